@@ -315,7 +315,11 @@ def run(ctx):
                         if explicit:
                             real = rp.ask("builder_ids %s 0 50 explicit" % name)
                             mid_ = re.search(r"id:(\d+)", str(real.get("result", "")))
-                            if "error" in real or ("panic" not in real and real.get("next_id_after") == real.get("next_id_before") and mid_ and int(mid_.group(1)) != 50):
+                            # ... and the history 'implicit request, then the same request with an explicit id': a declaration must be appended
+                            real2 = rp.ask("builder_type_twice %s explicit" % name)
+                            appended = "error" in real2 or ("panic" not in real2 and real2.get("n2") == real2.get("n1", 0) + 1)
+                            real = dict(real, twice=real2)
+                            if "error" in real or ("panic" not in real and appended and real.get("next_id_after") == real.get("next_id_before") and mid_ and int(mid_.group(1)) != 50):
                                 ctx.inconclusive.append((tag, "model-only deviation (%s); the compiled crate answers %s" % (what, real)))
                             else:
                                 ctx.violation(role, msg + "; on the compiled crate: %s" % real, {"cmd": "builder_ids %s 0 50 explicit" % name, "real": real})
